@@ -144,7 +144,11 @@ class OpenModel:
     def run(self, fn=None, args=None, extra_env=(), opaque=()):
         ex = Exec(self.prog, env=list(extra_env) + self.env(), opaque_calls=list(opaque))
         ex.inline_drops = True
-        ex.const_hooks = [(r'(^|::)MAP_FAILED$', Ptr('MAP_FAILED', 0)), (r'libc::(O_RDONLY|PROT_READ|MAP_SHARED|EINTR)$', z3.IntVal(0))]
+        # open(2) flags other than the access mode (Linux values): carried along; the file model does not depend on them - what they
+        # change (symbolic links, close-on-exec ...) is covered by the native opens
+        oflags = {'O_CLOEXEC': 0x80000, 'O_NOFOLLOW': 0x20000, 'O_NONBLOCK': 0x800, 'O_NOCTTY': 0x100, 'O_NOATIME': 0x40000, 'O_LARGEFILE': 0, 'O_SYNC': 0x101000, 'O_DSYNC': 0x1000}
+        ex.const_hooks = [(r'(^|::)MAP_FAILED$', Ptr('MAP_FAILED', 0)), (r'libc::(O_RDONLY|PROT_READ|MAP_SHARED|EINTR)$', z3.IntVal(0))] + \
+                         [(r'libc::%s$' % k, z3.IntVal(v)) for k, v in oflags.items()]
         fn = fn or self.prog.find1('new', self_ty='ShmReader')
         ex.deref_hook = lambda ex_, st, p: h_deref(ex_, st, p, self)
         outs = ex.run(fn, args if args is not None else [Opaque('path')], State())
@@ -192,7 +196,8 @@ def native_open_kinds(ck):
     body = b'\0' * 56
     cases = [('a missing file', 'MISSING', 'SyscallError_errno=2'), ('a directory', 'DIR', 'SyscallError_errno=21'), ('an empty file', '', 'SegmentNotInitialized'),
              ('a file truncated in the header (10 bytes)', hdr(72, 1, 2)[:10].hex(), 'SegmentNotInitialized'), ('garbage', ('ab' * 72), 'SegmentNotInitialized'),
-             ('a valid segment', (hdr(72, 1, 2) + body).hex(), 'Ok'), ('generation 0', (hdr(72, 1, 0) + body).hex(), 'SegmentNotInitialized'),
+             ('a valid segment', (hdr(72, 1, 2) + body).hex(), 'Ok'), ('a symbolic link to a valid segment', 'LINK:' + (hdr(72, 1, 2) + body).hex(), 'Ok'),
+             ('a symbolic link to an empty file', 'LINK:', 'SegmentNotInitialized'), ('generation 0', (hdr(72, 1, 0) + body).hex(), 'SegmentNotInitialized'),
              ('version 0', (hdr(72, 0, 2) + body).hex(), 'SegmentNotInitialized'), ('declared size 40', (hdr(40, 1, 2) + body).hex(), 'SegmentMalformed'),
              ('a zero-filled file of 16 bytes', '00' * 16, 'SegmentNotInitialized'), ('a zero-filled file of 72 bytes', '00' * 72, 'SegmentNotInitialized'),
              ('a header with version 0, generation 0 and declared size 8', hdr(8, 0, 0).hex() + '00' * 56, 'SegmentNotInitialized'),
